@@ -32,25 +32,91 @@ theorem c20_leafwise (d f : Val) (env : Env) (h : Loadable d f env = true) (p : 
     (load d f env).get p = merge (merge (d.get p) (f.get p)) ((envTree env.entries).get p) := by
   simp only [Loadable, Bool.and_eq_true] at h
   obtain ⟨⟨⟨⟨_, hf⟩, he⟩, hdf⟩, hc⟩ := h
-  rw [consistent_eq] at he
-  have hE := (obs_leafTree env.leafList he).1
-  rw [← entries_eq] at hE
+  have hE := (obs_entTree env.entries (entriesOk_env env he)).1
   unfold load
   rw [get_merge hE (pcompat_of_compatB hc), get_merge (pnodup_of_nodup hf) (pcompat_of_compatB hdf)]
 
-/-- The environment wins for exactly its leaf: the value of every variable is found at the path its name addresses,
-    whatever file and defaults say there. -/
-theorem c20_env_wins (d f : Val) (env : Env) (h : Loadable d f env = true)
+/-- What a variable does to the place its name addresses, for every variable of every environment: the result there
+    is what defaults and file hold, overridden by the variable's contribution `envVal` – its value, unless the value is
+    nil and the place is a list position (then it contributes nothing, see `c20_env_nil_element_ignored`). -/
+theorem c20_env_at_its_leaf (d f : Val) (env : Env) (h : Loadable d f env = true)
     (name : List Char) (a : String) (hm : (name, a) ∈ env) :
-    (load d f env).get (parseName name) = .atom a := by
+    (load d f env).get (parseName name)
+      = merge (merge (d.get (parseName name)) (f.get (parseName name))) (envVal (parseName name) a) := by
   rw [c20_leafwise d f env h]
   simp only [Loadable, Bool.and_eq_true] at h
   have he := h.1.1.2
-  rw [consistent_eq] at he
-  have : (envTree env.entries).get (parseName name) = .atom a := by
-    rw [entries_eq]
-    exact leafTree_get_leaf env.leafList he (List.mem_map_of_mem (f := fun e => (parseName e.1, e.2)) hm)
-  rw [this]; simp [merge]
+  have : (envTree env.entries).get (parseName name) = envVal (parseName name) a :=
+    entTree_get_entry env.entries (entriesOk_env env he)
+      (List.mem_map_of_mem (f := fun e => (parseName e.1, envVal (parseName e.1) e.2)) hm)
+  rw [this]
+
+/-- The environment wins for exactly its leaf: the value of every variable is found at the path its name addresses,
+    whatever file and defaults say there. The value may be any scalar, the one that is defined to be nil included
+    (an empty variable, `null`, `~`: `a = nullText`, see `c20_env_nil_wins`).
+    Not covered – because false on the code as it is, known finding C20-nil-list-element – is the single combination
+    `holeVar`: a nil value addressed to a list position (`c20_env_wins_fails_nil_element`). -/
+theorem c20_env_wins (d f : Val) (env : Env) (h : Loadable d f env = true)
+    (name : List Char) (a : String) (hm : (name, a) ∈ env) (hv : holeVar (parseName name) a = false) :
+    (load d f env).get (parseName name) = .atom a := by
+  rw [c20_env_at_its_leaf d f env h name a hm]
+  simp [envVal, hv, merge]
+
+/-- `c20_env_wins` is not vacuous for nil values: an empty `SERVE_PROXY_HOST` over a file that sets the host -/
+example :
+    let env : Env := [(c!"SERVE_PROXY_HOST", nullText), (c!"SERVE_PROXY_PORT", "9000")]
+    Loadable (.map (.cons c!"serve" (.map (.cons c!"proxy" (.map (.cons c!"port" (.atom "4455") .nil)) .nil)) .nil))
+      (.map (.cons c!"serve" (.map (.cons c!"proxy" (.map (.cons c!"host" (.atom "\"127.0.0.1\"") .nil)) .nil)) .nil)) env = true
+    ∧ (c!"SERVE_PROXY_HOST", nullText) ∈ env ∧ holeVar (parseName c!"SERVE_PROXY_HOST") nullText = false := by
+  decide
+
+/-- A variable that defines a property to be nil (empty value, `null`, `~`) wins like any other: whatever scalar the
+    file or the defaults hold at that property, the loaded configuration holds the nil value there and none of theirs
+    (the typed decoding then leaves the target's default, `c20_nil_keeps_default`). Holds below list entries too
+    (`mechanisms.authorizers[1].config.expressions[0].message`); the place itself must not be a list position. -/
+theorem c20_env_nil_wins (d f : Val) (env : Env) (h : Loadable d f env = true)
+    (name : List Char) (hm : (name, nullText) ∈ env) (hp : endsInIdx (parseName name) = false) :
+    (load d f env).get (parseName name) = Val.nil
+    ∧ ∀ a, a ≠ nullText → (load d f env).get (parseName name) ≠ .atom a := by
+  have key := c20_env_wins d f env h name nullText hm (by simp [holeVar, hp])
+  refine ⟨key, fun a ha hc => ?_⟩
+  rw [key] at hc
+  exact ha (Val.atom.inj hc).symm
+
+/-- the hypotheses are satisfiable by the case of the demonstration: the message of an expression inside the second
+    authorizer is reset, the file defines it -/
+example :
+    let env : Env := [(c!"MECHANISMS_AUTHORIZERS_1_CONFIG_EXPRESSIONS_0_MESSAGE", nullText)]
+    let f : Val := .map (.cons c!"mechanisms" (.map (.cons c!"authorizers" (.seq
+      (.cons (.map (.cons c!"id" (.atom "\"first\"") .nil))
+      (.cons (.map (.cons c!"id" (.atom "\"second\"") (.cons c!"config" (.map (.cons c!"expressions" (.seq
+        (.cons (.map (.cons c!"expression" (.atom "\"true\"") (.cons c!"message" (.atom "\"from file\"") .nil))) .nil))
+        .nil)) .nil))) .nil))) .nil)) .nil)
+    Loadable (.map .nil) f env = true
+    ∧ endsInIdx (parseName c!"MECHANISMS_AUTHORIZERS_1_CONFIG_EXPRESSIONS_0_MESSAGE") = false
+    ∧ (load (.map .nil) f env).get (parseName c!"MECHANISMS_AUTHORIZERS_1_CONFIG_EXPRESSIONS_0_MESSAGE") = Val.nil := by
+  decide
+
+/-- What the code does instead for a nil value addressed to a list position (known finding C20-nil-list-element), for
+    every load: the variable changes nothing at that place – the file's (or default's) element survives. -/
+theorem c20_env_nil_element_ignored (d f : Val) (env : Env) (h : Loadable d f env = true)
+    (name : List Char) (a : String) (hm : (name, a) ∈ env) (hv : holeVar (parseName name) a = true) :
+    (load d f env).get (parseName name) = merge (d.get (parseName name)) (f.get (parseName name)) := by
+  rw [c20_env_at_its_leaf d f env h name a hm]
+  simp [envVal, hv]
+
+/-- ... hence `c20_env_wins` without its last hypothesis is false: `SERVE_TRUSTED__PROXIES_1=` over a file with two
+    proxies leaves the second proxy of the file in place -/
+theorem c20_env_wins_fails_nil_element :
+    ¬ ∀ (d f : Val) (env : Env), Loadable d f env = true → ∀ name a, (name, a) ∈ env →
+        (load d f env).get (parseName name) = .atom a := by
+  intro hall
+  have := hall (.map .nil)
+    (.map (.cons c!"serve" (.map (.cons c!"trusted_proxies"
+      (.seq (.cons (.atom "\"10.0.0.1\"") (.cons (.atom "\"10.0.0.2\"") .nil))) .nil)) .nil))
+    [(c!"SERVE_TRUSTED__PROXIES_1", nullText)] (by decide) c!"SERVE_TRUSTED__PROXIES_1" nullText (by simp)
+  revert this
+  decide
 
 /-- ... and nothing else changes: at a place no variable addresses (nor anything above or below it) the result is
     what file and defaults give; there the file wins over the defaults leaf by leaf and the defaults fill what the
@@ -64,12 +130,10 @@ theorem c20_untouched (d f : Val) (env : Env) (h : Loadable d f env = true) (p :
     rw [c20_leafwise d f env h]
     simp only [Loadable, Bool.and_eq_true] at h
     have he := h.1.1.2
-    rw [consistent_eq] at he
     have : (envTree env.entries).get p = .null := by
-      rw [entries_eq]
-      apply leafTree_get_off env.leafList he
+      apply entTree_get_off env.entries (entriesOk_env env he)
       simp only [Env.touches, List.any_eq_false] at ht
-      simp only [Env.leafList, List.all_map, List.all_eq_true]
+      simp only [Env.entries, List.all_map, List.all_eq_true]
       intro e hem
       simpa using ht e hem
     rw [this]; simp
@@ -91,13 +155,12 @@ theorem c20_perm (d f : Val) (env₁ env₂ : Env) (hp : env₁.Perm env₂) (h 
     load d f env₁ ≈ load d f env₂ := by
   simp only [Loadable, Bool.and_eq_true] at h
   obtain ⟨⟨⟨_, he⟩, _⟩, hc⟩ := h
-  rw [consistent_eq] at he
-  have hp' : env₁.leafList.Perm env₂.leafList := hp.map _
-  have he₂ := consistent_perm hp' he
+  have hp' : env₁.entries.Perm env₂.entries := hp.map _
+  have hok := entriesOk_env env₁ he
+  have hok₂ := entriesOk_perm hp' hok
   unfold load
-  rw [entries_eq, entries_eq] at *
-  exact merge_congr_right (obs_leafTree _ he).1 (obs_leafTree _ he₂).1 (pcompat_of_compatB hc)
-    (leafTree_perm hp' he)
+  exact merge_congr_right (obs_entTree _ hok).1 (obs_entTree _ hok₂).1 (pcompat_of_compatB hc)
+    (entTree_perm hp' hok)
 
 /-- a non-trivial permutation of a consistent environment: two elements of one nested list and a scalar -/
 example : List.Perm
@@ -113,9 +176,7 @@ theorem c20_env_as_file (d f : Val) (env : Env) (h : Loadable d f env = true) :
     load d f env ≈ load d (merge f (envTree env.entries)) [] := by
   simp only [Loadable, Bool.and_eq_true] at h
   obtain ⟨⟨⟨⟨_, hf⟩, he⟩, hdf⟩, hc⟩ := h
-  rw [consistent_eq] at he
-  have hE := (obs_leafTree env.leafList he).1
-  rw [← entries_eq] at hE
+  have hE := (obs_entTree env.entries (entriesOk_env env he)).1
   have hdf' := pcompat_of_compatB hdf
   have hc' := pcompat_of_compatB hc
   have hsplit : pcompat d (envTree env.entries) ∧ pcompat f (envTree env.entries) := by
@@ -148,10 +209,9 @@ theorem c20_split (d t : Val) (Lf Le : List (Path × String))
     simp only [Env.entries, envOf, atoms, List.map_map]
     apply List.map_congr_left
     intro l hl'
-    have : pathOk l.1 = true := by
-      have := List.all_eq_true.mp hok l (hs.mem_iff.mpr (List.mem_append_right _ hl'))
-      simpa using this
-    simp [parseName_envName l.1 this]
+    have := List.all_eq_true.mp hok l (hs.mem_iff.mpr (List.mem_append_right _ hl'))
+    simp only [Bool.and_eq_true, Bool.not_eq_true'] at this
+    simp [parseName_envName l.1 this.1, envVal, this.2]
   -- the two parts together are `t`
   have hsum : merge (envTree (atoms Lf)) (envTree (atoms Le)) ≈ t :=
     equiv_trans (equiv_symm (leafTree_append hLs))
@@ -196,6 +256,7 @@ theorem c20_env_spelling_partial (v : Value) (y : Scalar) (h : faithful v y = tr
   unfold SpellingEquivalent
   cases y with
   | null => simp [faithful] at h
+  | coll => simp [faithful] at h
   | float r => simp [faithful] at h
   | str x =>
     simp only [faithful, beq_iff_eq] at h
@@ -247,6 +308,32 @@ theorem c20_env_spelling_fails_bool : ¬ SpellingEquivalent (.str c!"true") (.bo
 theorem c20_env_spelling_fails_numeral : ¬ SpellingEquivalent (.str c!"007") (.int 7) := by
   have h7 : natDigits 7 = c!"7" := by rw [natDigits]; simp [digitChar]
   simp [SpellingEquivalent, Value.type, Value.fileScalar, decode, showInt, h7]
+
+/-- ... and `NAME=~` (as `null`, `Null`, blanks, and for a non-empty default the empty text): YAML reads nil, the
+    string property keeps its default instead of the text (same known finding) -/
+theorem c20_env_spelling_fails_nil : ¬ SpellingEquivalent (.str c!"~") .null := by
+  simp [SpellingEquivalent, Value.type, Value.fileScalar, decode]
+
+/-- A nil value (the empty variable, `null`, `~`) arriving at a typed leaf – string, number, boolean, hook-parsed –
+    leaves what the decoding target held before: the default of the property.
+    Together with `c20_env_nil_wins`: a variable that defines a property to be nil resets it to its default, whatever the
+    file says, which is what the file saying `null` at that property gives (`c20_env_as_file`). -/
+theorem c20_nil_keeps_default (t : LeafType) (ht : t ≠ .any) (dflt : Leaf) : decodeOver t dflt .null = dflt := by
+  cases t <;> first | rfl | exact absurd rfl ht
+
+/-- ... and a member of a free-form map (the `config` of a mechanism) becomes nil itself, default or not -/
+theorem c20_nil_member_is_nil (dflt : Leaf) : decodeOver .any dflt .null = .raw .null := rfl
+
+/-- ... and every other reading replaces the default (the decoder writes the target): the default plays no role -/
+theorem c20_value_replaces_default (t : LeafType) (dflt : Leaf) (y : Scalar) (h : decode t y ≠ .zero) :
+    decodeOver t dflt y = decode t y := by
+  unfold decodeOver
+  split
+  · next h0 => exact absurd h0 h
+  · rfl
+
+/-- not vacuous: a port from the environment over the default port -/
+example : decode .int (.int 9000) ≠ .zero ∧ decodeOver .int (.int 4455) (.int 9000) = .int 9000 := by decide
 
 /-! ## histories: a load is a function of its own file and environment -/
 
